@@ -67,6 +67,34 @@ def deep_library_prog(rnd, W):
     return prog([], [dump_func('byte'), dump_func('bool'), f, main]), argv
 
 
+def global_index_prog(rnd, W):
+    """a[pos] = jump(): pos is in range when the index is evaluated, the right-hand side
+    then moves it far away; the store must still go to the old element."""
+    el = rnd.choice(('byte', 'int', 'bool'))
+    n = rnd.choice((2, 4, 9))
+    far = rnd.choice((n, n + 5, -1, -8, 2 * n + 40, 300))
+    lit = {'byte': lambda i: I(65 + i), 'int': lambda i: I(100 + i), 'bool': lambda i: B(i % 2 == 0)}[el]
+    rhs = {'byte': is_(call('jump'), 'byte'), 'int': call('jump'), 'bool': bin_('>', call('jump'), I(0))}[el]
+    storage = rnd.choice(('local', 'global', 'dynamic'))
+    glob = [decl('int', 'pos', I(0))]
+    pre = []
+    if storage == 'global':
+        glob.append(decl(arr(el), 'cells', ('arr', tuple(lit(i) for i in range(n))), True))
+    elif storage == 'local':
+        pre = [decl(arr(el), 'cells', ('arr', tuple(lit(i) for i in range(n))), True)]
+    else:
+        pre = [dyn(el, 'cells', I(n)), for_up('f', I(0), ln('cells'), setv(idx('cells', V('f')), lit(0)))]
+    stmt_ = setv(idx('cells', V('pos')), rhs)
+    if el != 'bool' and rnd.random() < 0.4:
+        stmt_ = aug('+', idx('cells', V('pos')), call('jump') if el == 'int' else I(1))
+        if el == 'byte':
+            stmt_ = setv(idx('cells', V('pos')), rhs)
+    body = pre + [decl('int', 'guard', I(12345)), setv('pos', I(rnd.randrange(n))), stmt_, write(V('pos')),
+                  setv('pos', I(0)), ex(call('dump', V('cells'))), write(V('guard'))]
+    jump = func('int', 'jump', [], setv('pos', I(far)), write(C('j')), ret(I(77)))
+    return prog(glob, [dump_func(el), jump, func('empty', '@is_you', [], *body)]), []
+
+
 def make_case(seed, idx):
     rnd = case_rng(seed, ID, idx)
     W = rnd.choice((2, 2, 3, 4, 8))
@@ -80,6 +108,8 @@ def make_case(seed, idx):
     elif idx % 7 == 5:
         from .c17 import lean_prog
         p, argv = lean_prog(rnd, W)
+    elif idx % 7 == 2 and idx % 3 == 0:
+        p, argv = global_index_prog(rnd, W)
     else:
         cfg = heavy_cfg(rnd)
         cfg['W'] = W
